@@ -180,4 +180,44 @@ theorem inv_reachable (w : Nat) (s : State) (h : Reachable w s) : Inv w s := by
   obtain ⟨as, hr⟩ := h
   exact inv_run w (init w) s as (inv_init w) hr
 
+/-! ### A whole burst -/
+
+theorem run_append (s : State) (as bs : List Action) :
+    run s (as ++ bs) = (run s as).bind fun s' => run s' bs := by
+  induction as generalizing s with
+  | nil => simp [run]
+  | cons a as ih =>
+    simp only [List.cons_append, run]
+    cases step s a with
+    | none => simp
+    | some s1 => simp [ih]
+
+/-- The schedule of a burst after its first strobe: each further strobe follows
+the previous one after the given gap. -/
+def burst (gs : List Nat) : List Action := gs.flatMap fun g => [.tick g, .strobe]
+
+/-- Freshly strobed at time `t`, nothing buffered or sent yet. -/
+def Armed (w t : Nat) (s : State) : Prop :=
+  s.window = w ∧ s.now = t ∧ s.deadline = some (t + w) ∧ s.fired = false ∧ s.sig = 0 ∧
+  s.sends = 0 ∧ s.exited = false ∧ s.lastStrobe = some t
+
+theorem burst_keeps_armed (w : Nat) (gs : List Nat) (hg : ∀ g ∈ gs, g < w) (t : Nat) (s : State)
+    (h : Armed w t s) : ∃ s', run s (burst gs) = some s' ∧ Armed w (t + gs.sum) s' := by
+  induction gs generalizing t s with
+  | nil => exact ⟨s, rfl, by simpa using h⟩
+  | cons g gs ih =>
+    obtain ⟨h1, h2, h3, h4, h5, h6, h7, h8⟩ := h
+    have hlt := hg g (List.mem_cons_self)
+    let s2 : State := { s with now := s.now + g, deadline := some (s.now + g + s.window), fired := false, lastStrobe := some (s.now + g), delivers := 0, strobes := s.strobes + 1 }
+    have hrun : run s [.tick g, .strobe] = some s2 := by
+      have : s.now + g ≤ t + w := by omega
+      simp [run, step, h3, this, h7, s2]
+    have harm : Armed w (t + g) s2 := by
+      refine ⟨h1, by simp [s2, h2], by simp [s2, h2, h1], rfl, h5, h6, h7, by simp [s2, h2]⟩
+    obtain ⟨s', hr', ha'⟩ := ih (fun x hx => hg x (List.mem_cons_of_mem _ hx)) (t + g) s2 harm
+    refine ⟨s', ?_, ?_⟩
+    · show run s ([.tick g, .strobe] ++ burst gs) = some s'
+      rw [run_append, hrun]; exact hr'
+    · simpa [List.sum_cons, Nat.add_assoc] using ha'
+
 end Mutagen.Proofs.Coalescer
